@@ -101,5 +101,61 @@ PARTIAL += [
     "modelled as it is (C03_cex_source_minus_one): ustream_read_chars returns -1 with error code -1",
 ]
 
-# ---- independent review rA (notes/review/rA-review.md) ----
-LEAN_MODULES += ["CifModel.Props.ReviewRC03"]
+# ---- group gX: composition parser model -> store model over whole histories; review rA findings on C03 ----
+LEAN_MODULES += ["CifModel.Lemmas.ParserStoreSim", "CifModel.Lemmas.ParserStoreRun", "CifModel.Lemmas.ParserStoreSimF",
+                 "CifModel.Lemmas.ParserStoreRunF", "CifModel.Lemmas.ParserTraceShape", "CifModel.Props.ReviewRC03"]
+REQUIRED += ["CifModel.C03_parser_store_refines", "CifModel.C03_storeOps_total", "CifModel.C03_parser_store_refines_total",
+             "CifModel.ParserSimF.storeOps_total", "CifModel.ParserSimF.prefix_rep", "CifModel.ParserSimF.parse_leaves_rep",
+             "CifModel.ParserSimF.contAt_unique", "CifModel.ParserSimF.contAt_addFrame_inv", "CifModel.ParserSimF.contAt_addBlock_inv",
+             "CifModel.C03_parse_is_store_history", "CifModel.C03_store_inv_after_parse",
+             "CifModel.C03_parser_store_refines_from_rep",
+             "CifModel.C03_parser_store_refines_covered_partial", "CifModel.C03_parser_store_refines_noframes_partial",
+             "CifModel.C03_parser_store_refines_from_rep_partial",
+             "CifModel.C03_parse_is_store_history_partial", "CifModel.C03_store_inv_after_parse_partial",
+             "CifModel.C03_calls_resolve", "CifModel.C03_add_packet_calls_succeed", "CifModel.C03_create_frame_calls_succeed",
+             "CifModel.C03_set_value_calls_succeed", "CifModel.C03_create_loop_calls_succeed", "CifModel.C03_prune_calls_documented",
+             "CifModel.Model.Parser.trace_paths_resolve", "CifModel.Model.Parser.trace_shaped", "CifModel.Model.Parser.res_apply",
+             "CifModel.ParserSimF.tree_updG", "CifModel.ParserSimF.tree_addFrame", "CifModel.ParserSimF.tree_addBlock",
+             "CifModel.ParserSimF.below_chain", "CifModel.ParserSimF.sibling_disjoint", "CifModel.ParserSimF.getIn_cont",
+             "CifModel.ParserSimF.sim_mkBlock", "CifModel.ParserSimF.sim_mkFrame", "CifModel.ParserSimF.sim_prune",
+             "CifModel.ParserSimF.sim_mkLoop", "CifModel.ParserSimF.sim_addPkt", "CifModel.ParserSimF.sim_setVal",
+             "CifModel.ParserSimF.rep_step", "CifModel.ParserSimF.run_sim", "CifModel.ParserSimF.parse_store_sim",
+             "CifModel.ParserSimF.parse_store_sim_from",
+             "CifModel.ParserSim.tree_upd", "CifModel.ParserSim.rep_step", "CifModel.ParserSim.run_sim",
+             "CifModel.ParserSim.parse_store_sim", "CifModel.ParserSim.storeOps_total", "CifModel.ParserSim.parse_store_sim_from",
+             "CifModel.ParserSim.parse_leaves_rep", "CifModel.ParserSim.prefix_rep",
+             "CifModel.Model.Parser.mkLoop_spec", "CifModel.Model.Parser.prune_spec'"]
+PARTIAL += [
+    "group gX — C03_parser_store_refines_full is now PROVED: theorem C03_parser_store_refines (Props/C03Store.lean) — for EVERY option "
+    "record, callback policy and input (save frames at any depth, lenient creations — Store.Op.mkBlock / mkFrame carry the `lenient` flag of "
+    "cif_create_block_internal / cif_container_create_frame_internal —, every recovery path, completed or aborted parses) the recorded "
+    "store calls, translated into a Store.Op history (storeOps) and run through Store.step from the empty world, all return CIF_OK and end in "
+    "a store whose Store.abs IS the parser model's CIF.  C03_parse_is_store_history: the history is in contract (C04_refines_from_start "
+    "applies, and with it C04 / C05 / C06 / C07's theorems about in-contract histories); C03_store_inv_after_parse: afterwards WOk / Inv / "
+    "autocommit hold and the store's own abstraction is OkCif and RectCif.  Method: each call on the documented model with identities "
+    "(Spec/StoreSpec AState) against the tree — Lemmas/ParserStoreSimF: ContAt (path -> container id), tree_updG (the container with id t "
+    "occurs ONCE in the tree: a frame has one parent, parent < child — below_chain, sibling_disjoint, root_disjoint), tree_addFrame, "
+    "sim_mkBlock / sim_mkFrame / sim_prune / sim_mkLoop / sim_addPkt / sim_setVal (set_value in its three cases) —, lifted to Store.step "
+    "through C04_refines (Lemmas/ParserStoreRunF: handle tables, Rep, rep_step, run_sim; Store.step is never unfolded).  The frame-free "
+    "development (ParserSim, C03_…_partial theorems) additionally proves that the trace HAS a translation (storeOps_total) and that every "
+    "intermediate state is represented (prefix_rep).  C03_storeOps_total / C03_parser_store_refines_total: the trace of EVERY parse HAS a translation "
+    "(every call finds the handle its container got: C03_calls_resolve, inversion of the creations, uniqueness of a container's path), so no "
+    "hypothesis is left for a parse into a new CIF.  STILL PARTIAL: pre-existing targets are covered as "
+    "REPRESENTED worlds (C03_parser_store_refines_from_rep: from any world satisfying ParserSimF.Rep — e.g. the one an earlier parse left, "
+    "ParserSim.parse_leaves_rep); no theorem builds such a world from an arbitrary consistent Cif (the driver runs cifOps(pre) ++ trace: "
+    "sto=ok on every request).",
+    "review rA finding A.1 (repaired): C03_calls_resolve / Model.Parser.trace_paths_resolve — EVERY recorded call of EVERY parse (any initial "
+    "target) addresses a container that exists in the state in which the call is made (Lemmas/ParserTraceShape: a second Hoare logic over the "
+    "instrumented productions whose pre/postconditions see the recorded calls; resolution is monotone under every store call); "
+    "C03_add_packet_calls_succeed, C03_create_frame_calls_succeed, C03_set_value_calls_succeed, C03_create_loop_calls_succeed, "
+    "C03_prune_calls_documented restate the `…_calls_documented` conclusions WITHOUT the guard `getIn … = some cc` (the older statements are "
+    "kept unchanged).  SOp.docOk now also says: a non-lenient creation has a valid code, the names of a new loop are valid.  "
+    "Model.Parser.trace_shaped: every cif_loop_add_packet directly follows the create_loop / add_packet of the same container.",
+    "review rA, finding 3: `consistent` (OkCif / RectCif) tolerates a loop WITHOUT packets: an ABORTED parse (callback stop or failure exit "
+    "inside a loop body) skips cif_container_prune and leaves the loop it was filling packet-less; cif_walk / cif_write answer "
+    "CIF_EMPTY_LOOP on such a target (observed and tolerated by the implementation-level oracle exactly then).  No theorem says that a "
+    "NON-aborted parse leaves no packet-less loop.  Finding 4: the pre-existing target of C03_consistent_after is a free tree satisfying "
+    "OkCif / RectCif; that a store reached by API calls shows such a tree is proved for stores built by a parse "
+    "(C03_store_inv_after_parse), there is no general `Store.Inv s.db -> OkCif (abs s.db)`.",
+]
+# ---- independent review rA (notes/review/rA-review.md): CifModel.Props.ReviewRC03 is listed in group gX's LEAN_MODULES above ----
